@@ -84,6 +84,27 @@ def disagreesX (fx : Fixes) (w h : Nat) (ops : List EOp) : Bool :=
   | .ok e, some t => !t.accepts (abs e)
   | _, _ => false
 
+/-- as `specRunX`, over the oracle's vocabulary `tokOfJ` (colon sub-parameters outside SGR = ignored) -/
+def specRunJ (t : Term.T) : List EOp → Option Term.T
+  | [] => some t
+  | op :: rest =>
+    match tokOfJ op with
+    | none => none
+    | some tok =>
+      match Term.step t tok with
+      | .accept (t' :: _) => specRunJ t' rest
+      | _ => none
+
+def agreesJ (fx : Fixes) (w h : Nat) (ops : List EOp) : Bool :=
+  match play fx w h ops, specRunJ (Term.T.init h w) ops with
+  | .ok e, some t => t.accepts (abs e)
+  | _, _ => false
+
+def disagreesJ (fx : Fixes) (w h : Nat) (ops : List EOp) : Bool :=
+  match play fx w h ops, specRunJ (Term.T.init h w) ops with
+  | .ok e, some t => !t.accepts (abs e)
+  | _, _ => false
+
 /-! shorthand for writing operations -/
 def pr (g : List Nat) (w : Nat := 1) : EOp := .print g w
 def csi1 (final : Nat) (ps : List Int := []) : EOp := .csi [final] (ps.map fun p => (p, []))
